@@ -327,6 +327,21 @@ func ComputeStateKeyWithWord(nfaStates []nfa.StateID, isFromWord bool) StateKey 
 // produce both a match and non-match DFA state depending on whether the SOURCE
 // state contained an NFA match state. This function distinguishes them in the cache.
 func ComputeStateKeyWithWordAndMatch(nfaStates []nfa.StateID, isFromWord bool, isMatch bool) StateKey {
+	return computeStateKey(nfaStates, isFromWord, isMatch, false)
+}
+
+// computeOrderedStateKey is the key the lazy DFA itself uses for its cache. Unlike
+// the exported ComputeStateKey* functions it does NOT canonicalise the order of
+// the NFA states: they are kept in thread-priority order, and leftmost-first
+// matching (determinize stops at the first Match state) gives two DFA states with
+// the same set but a different order different transitions. Keying them by the
+// sorted set made the second one reuse the first one's cached state, so results
+// depended on which of them an earlier search had created.
+func computeOrderedStateKey(nfaStates []nfa.StateID, isFromWord bool, isMatch bool) StateKey {
+	return computeStateKey(nfaStates, isFromWord, isMatch, true)
+}
+
+func computeStateKey(nfaStates []nfa.StateID, isFromWord bool, isMatch bool, ordered bool) StateKey {
 	if len(nfaStates) == 0 {
 		// Encode (isFromWord, isMatch) into 2 bits for empty states
 		var key StateKey
@@ -341,9 +356,12 @@ func ComputeStateKeyWithWordAndMatch(nfaStates []nfa.StateID, isFromWord bool, i
 
 	// Sort NFA states for canonical ordering
 	// This ensures {1,2,3} and {3,2,1} produce the same key
-	sorted := make([]nfa.StateID, len(nfaStates))
-	copy(sorted, nfaStates)
-	sortStateIDs(sorted)
+	sorted := nfaStates
+	if !ordered {
+		sorted = make([]nfa.StateID, len(nfaStates))
+		copy(sorted, nfaStates)
+		sortStateIDs(sorted)
+	}
 
 	// Hash the sorted states using FNV-1a
 	h := fnv.New64a()
